@@ -39,3 +39,58 @@ Definition run_find (p : profile) (a : N) (bs : list byte) : list string :=
 
 Definition run_cksum (magic arch length : N) : list string :=
   [ line "calc_checksum" (sN (calc_checksum magic arch length)) ].
+
+(* ---- full dump of a header (domain `hdr`) ----------------------------------- *)
+Require Import Layout HeaderTags.
+
+Definition hkv (n : string) (v : N) : string := n ++ "=" ++ sN v.
+Definition hsp (l : list string) : string := sJoin " " l.
+Definition hfields (k : hkind2) (m : mem) (t : tref) (names : list string) : string :=
+  hsp (map (fun n => hkv n (hfld k m t n)) names).
+
+Definition hgetter_name (k : hkind2) : string :=
+  match k with
+  | HkEnd => "end" | HkInfoReq => "information_request" | HkAddress => "address" | HkEntryAddress => "entry_address"
+  | HkConsole => "console_flags" | HkFramebuffer => "framebuffer" | HkModuleAlign => "module_align"
+  | HkEfiBs => "efi_boot_services" | HkEntryEfi32 => "entry_address_efi32" | HkEntryEfi64 => "entry_address_efi64"
+  | HkRelocatable => "relocatable"
+  end.
+
+Definition hgetter_kinds : list hkind2 :=
+  [HkInfoReq; HkAddress; HkEntryAddress; HkEntryEfi32; HkEntryEfi64; HkConsole; HkFramebuffer; HkModuleAlign;
+   HkEfiBs; HkRelocatable].
+
+Definition hlines_kind (k : hkind2) (m : mem) (t : tref) : list string :=
+  let common := "typ=" ++ sRes sN (htag_typ m (t_off t)) ++ " flags=" ++ sRes sN (htag_flags m (t_off t))
+                ++ " " ++ hkv "size" (htag_size m (t_off t)) in
+  let extra :=
+    match k with
+    | HkInfoReq =>
+        let '(off, n) := hrequests t in
+        " requests=" ++ sView off (n * 4) ++ " "
+        ++ sList (fun i => sN (le (slice (m_bytes m) (off + 4 * i) 4))) (map N.of_nat (seq 0 (N.to_nat n)))
+    | HkAddress => " " ++ hfields k m t ["header_addr"; "load_addr"; "load_end_addr"; "bss_end_addr"]
+    | HkEntryAddress | HkEntryEfi32 | HkEntryEfi64 => " " ++ hfields k m t ["entry_addr"]
+    | HkConsole => " console_flags=" ++ sRes sN (enum_in (hfld k m t "console_flags") 1)
+    | HkFramebuffer => " " ++ hfields k m t ["width"; "height"; "depth"]
+    | HkRelocatable => " " ++ hfields k m t ["min_addr"; "max_addr"; "align"]
+                       ++ " preference=" ++ sRes sN (enum_in (hfld k m t "preference") 2)
+    | _ => ""
+    end in
+  [line (hgetter_name k ++ "_tag") (common ++ extra)].
+
+Definition hlines_get (p : profile) (k : hkind2) (m : mem) (r : dref) : list string :=
+  let nm := hgetter_name k in
+  match hget_tag p k m r with
+  | Val None => [line "get" (nm ++ " none")]
+  | Val (Some t) => line "get" (nm ++ " some " ++ sView (t_off t) (htref_size_of_val k t)) :: hlines_kind k m t
+  | x => [line "get" (nm ++ " " ++ sRes (fun _ => "") x)]
+  end.
+
+Definition run_hdr (p : profile) (bs : list byte) : list string :=
+  let m := {| m_base := 0; m_bytes := bs |} in
+  let '(l, lines) := run_hdr_core p m in
+  match l with
+  | Val r => (lines ++ hlines_walk p m r ++ flat_map (fun k => hlines_get p k m r) hgetter_kinds)%list
+  | _ => lines
+  end.
